@@ -192,7 +192,7 @@ def gen_cases(tier, seed):
                 (recs_nested(), ["x.y", "z,x.y", "x.y,z"]), (recs_tuple(), [0, "0", "1,0", "0,1"])]
     for dom, attrs in rec_doms:
         pool = list(seqs(dom, L4 if isinstance(dom[0], dict) and "y" in dom[0] else L3))
-        for xs in sample(pool, 60 if quick else 1555):
+        for xs in sample(pool, 40 if quick else 1555):
             for attr in attrs:
                 for rev in (False, True):
                     for cs in (False, True):
@@ -322,8 +322,7 @@ def gen_cases(tier, seed):
                  ("le", 1), ("ge", 1), ("<=", 0), (">=", 2), ("in", [0, 2]), ("number", None), ("string", None)]
     for xs in seqs(INTS, 5 if not quick else 4):
         for name, arg in int_tests:
-            if quick and len(xs) == 4 and name in ("equalto", "==", "lessthan", "greaterthan", ">", "<=", ">=",
-                                                    "number"):
+            if quick and len(xs) == 4 and name not in ("", "odd", "eq", "in", "lt", "ge", "divisibleby"):
                 continue
             for f in ("select", "reject"):
                 a = {"arg": arg}
@@ -379,7 +378,7 @@ def gen_cases(tier, seed):
         for f in ("selectattr", "rejectattr"):
             add(case(f, xs, {"attr": "x.y", "arg": "a"}, f"xs|{f}(attr, name, arg)", pos=["attr", "name", "arg"],
                      name="eq", lazy=True, names=["name"]))
-    full_every = 6 if quick else 3
+    full_every = 8 if quick else 3
     for i, c in enumerate(cases):
         c["pick"] = None if i % full_every == 0 else i
     return cases
